@@ -27,6 +27,7 @@
 (*           nh (0 = no NH tag); mp ("" = no mp tag); contig ("" = unplaced); start, end (half open *)
 (*           reference interval; pysam reference_end is exclusive); sample;                         *)
 (*           feats : [tag -> Seq(STRING)] delimiter separated parts of string valued tags;          *)
+(*           fq    : [tag -> Int] float typed tags in quarters (XV:f:2.5 -> 10);                        *)
 (*           nums  : [tag -> Int] integer valued tags.                                              *)
 (*  opts o : r1only r2only filterMP proper no_indels no_softclips filterXA dedup nodivide divmm    *)
 (*           split keep : BOOLEAN; minMQ; max_edits (-1 = off); blacklist : Seq([contig,start,end]);*)
@@ -108,6 +109,10 @@ FeatStr(r, tag, o) == IF IsAttr(tag) THEN r.contig
                       ELSE "None"
 Parts(r, tag, o) == IF HasKey(r.feats, tag) THEN r.feats[tag] ELSE << FeatStr(r, tag, o) >>
 
+(* -byValue adds the tag's numeric value: integer typed tags (nums) and float typed tags (fq, in quarters: 2.5 -> 10) *)
+ByValueWeight(r, o) == IF HasKey(r.nums, o.byvalue) THEN r.nums[o.byvalue] * Den
+                       ELSE IF HasKey(r.fq, o.byvalue) THEN r.fq[o.byvalue] * (Den \div 4)
+                       ELSE 0
 (* the feature tags after the automatic additions of create_count_table *)
 TagsOf(o) == LET t1 == IF o.mode = "joined" /\ o.byvalue # "" /\ Len(o.tags) > 0 /\ ~(o.byvalue \in SeqSet(o.tags))
                        THEN Append(o.tags, o.byvalue) ELSE o.tags
@@ -156,7 +161,7 @@ BaseContribs(r, o) ==
         ELSE
             LET key == [k \in DOMAIN KeyTags(o) |-> FeatStr(r, KeyTags(o)[k], o)]
             IN IF o.byvalue # ""
-               THEN << [key |-> key, w |-> (IF HasKey(r.nums, o.byvalue) THEN r.nums[o.byvalue] * Den ELSE 0)] >>
+               THEN << [key |-> key, w |-> ByValueWeight(r, o)] >>
                ELSE << [key |-> key, w |-> w] >>
     ELSE  \* single: every feature tag is a dimension of its own, rows are the union of the values
         LET perTag == [k \in DOMAIN TagsOf(o) |->
@@ -248,7 +253,7 @@ IncrementsD(r, o) ==
                               bins |-> binv, w |-> w]]
             IN inc
         ELSE IF o.byvalue # ""
-             THEN << [key |-> jf, bins |-> binv, w |-> (IF HasKey(r.nums, o.byvalue) THEN r.nums[o.byvalue] * Den ELSE 0)] >>
+             THEN << [key |-> jf, bins |-> binv, w |-> ByValueWeight(r, o)] >>
              ELSE << [key |-> jf, bins |-> binv, w |-> w] >>
     ELSE
         LET one(k) == IF o.split
@@ -303,7 +308,7 @@ PlanD(reads, o) ==
 BaseRead == [mapped |-> TRUE, qcfail |-> FALSE, dup |-> FALSE, rr |-> FALSE, paired |-> FALSE, mate_unmapped |-> FALSE,
              proper |-> FALSE, hasxa |-> FALSE, mate |-> 0, mapq |-> 60, ops |-> <<"M">>, nm |-> -1, xa |-> <<>>, nh |-> 0,
              mp |-> "", contig |-> "c1", start |-> 12, end |-> 18, sample |-> "s1",
-             feats |-> [GN |-> <<"gA">>, DA |-> <<"ref">>], nums |-> [DS |-> 12, XV |-> 3]]
+             feats |-> [GN |-> <<"gA">>, DA |-> <<"ref">>], nums |-> [DS |-> 12, XV |-> 3], fq |-> <<>>]
 
 ReadDeviations ==
     { <<"mapped", FALSE>>, <<"qcfail", TRUE>>, <<"dup", TRUE>>, <<"rr", TRUE>>, <<"proper", TRUE>>,
@@ -317,6 +322,7 @@ ReadDeviations ==
       <<"iv", <<14, 20>> >>, <<"iv", <<15, 25>> >>, <<"iv", <<20, 30>> >>, <<"iv", <<29, 35>> >>,
       <<"iv", <<30, 36>> >>, <<"iv", <<16, 40>> >>, <<"iv", <<25, 30>> >>,
       <<"contig", "c2">>, <<"contig", "">>, <<"sample", "s2">>,
+      <<"XVf", 10>>, <<"XVf", 16>>,
       <<"GN", <<"gA", "gB">> >>, <<"GN", <<>> >>, <<"DS", 20>>, <<"DS", 35>>, <<"DS", -1>> }
 
 ApplyR(r, d) ==
@@ -326,6 +332,7 @@ ApplyR(r, d) ==
       [] d[1] = "xa"   -> [r EXCEPT !.hasxa = TRUE, !.xa = d[2]]
       [] d[1] = "GN"   -> IF d[2] = <<>> THEN [r EXCEPT !.feats = [DA |-> <<"ref">>]] ELSE [r EXCEPT !.feats.GN = d[2]]
       [] d[1] = "DS"   -> IF d[2] < 0 THEN [r EXCEPT !.nums = [XV |-> 3]] ELSE [r EXCEPT !.nums.DS = d[2]]
+      [] d[1] = "XVf"  -> [r EXCEPT !.nums = [DS |-> 12], !.fq = [XV |-> d[2]]]      \* XV:f:2.5 / XV:f:4.0 instead of XV:i:3
       [] d[1] = "mapped" -> [r EXCEPT !.mapped = FALSE, !.ops = <<>>, !.mapq = 0]          \* placed with its mate
       [] d[1] = "contig" /\ d[2] = "" -> [r EXCEPT !.contig = "", !.mapped = FALSE, !.ops = <<>>, !.mapq = 0]
       [] OTHER -> [r EXCEPT ![d[1]] = d[2]]
